@@ -28,6 +28,26 @@ PASS_FUNCS = {"asarray", "array", "unique", "sort", "atleast_1d", "atleast_2d", 
               "squeeze", "list", "tuple", "int", "sorted"}
 NODE_KEY_SETS = {"comp_states", "channel_states", "membrane_states"}
 EDGE_KEY_SETS = {"edge_states", "synapse_states", "synapse_param_names", "synapse_state_names"}
+# name sets that hold only STATE names / only PARAMETER names (the two name spaces are disjoint: `<Syn>_s` vs `<Syn>_gS`)
+STATE_ONLY_SETS = {"comp_states", "channel_states", "membrane_states", "edge_states", "synapse_states", "synapse_state_names"}
+PARAM_ONLY_SETS = {"synapse_param_names"}
+# what the key at the site being classified is known to be: "state" (a key of the state dictionary), "param", or None.  A test of a
+# state key against a parameter-only name set is false whatever the key class is (and vice versa).
+KEY_KIND = [None]
+
+
+class key_kind:
+    """with key_kind("state"): ...  -- classify a site whose key is known to be a state (parameter) name"""
+    def __init__(self, kind):
+        self.kind = kind
+
+    def __enter__(self):
+        self.old = KEY_KIND[0]
+        KEY_KIND[0] = self.kind
+
+    def __exit__(self, *a):
+        KEY_KIND[0] = self.old
+        return False
 
 
 class Sp:
@@ -132,6 +152,10 @@ def key_test(t: T) -> Optional[Tuple[str, bool]]:
                 cls = "edge"
             elif names & NODE_KEY_SETS:
                 cls = "node"
+            if KEY_KIND[0] is not None and cls is not None:
+                st_, pa_ = bool(names & STATE_ONLY_SETS), bool(names & PARAM_ONLY_SETS)
+                if (KEY_KIND[0] == "state" and pa_ and not st_) or (KEY_KIND[0] == "param" and st_ and not pa_):
+                    cls = "__never__"
         if cls is None:
             return None
         return cls, t.name == "in"
